@@ -47,6 +47,10 @@ def attribute(f, trace):
     if a == "call":
         if what & {"atoms", "cell", "cons"}:
             props.add("C11" if kinds <= {"disp"} else "C03")
+            # a mixed trial (exchange and displacement elements): the exchange bookkeeping is as specified and a displacement
+            # element reported success, yet the atoms are not the specified ones -- the displacement moved other atoms
+            if "disp" in kinds and not kinds <= {"disp"} and not (what & {"added", "deleted", "pdelta"}) and any(s["k"] == "disp" and s["ok"] for s in f["subs"]):
+                props.add("C11")
         if "lastK" in what:
             props.add("C14")
         if what & {"added", "deleted", "pdelta"}:
@@ -193,7 +197,7 @@ FAMILIES = {
     "C03": ["canon", "gc", "gc", "npt", "hmc", "canon_noreset", "npt_noreset", "gc", "gcmix"],
     "C04": ["canon", "gc", "npt", "hmc", "gcmix"],
     "C05": ["gc", "gc", "gc", "gcdrain", "gcmix"],
-    "C11": ["canon", "canon", "gc", "npt", "gcdrain", "gcmix"],
+    "C11": ["canon", "canon", "gc", "npt", "gcdrain", "gcmix", "gcmix"],
     "C12": ["canon", "canon", "hmc", "npt", "gc", "canon_noreset"],
     "C14": ["hmc"],
     "C20": ["canon", "gc", "npt", "hmc"],
